@@ -212,7 +212,7 @@ func readBodyUntilClose(r network.Reader, maxBodySize int, dst []byte, failOnTim
 				if te, ok := err.(interface{ Timeout() bool }); ok && failOnTimeout && te.Timeout() {
 					return dst[:offset], err
 				}
-				if failOnTimeout && errors.Is(err, syscall.ECONNRESET) {
+				if errors.Is(err, syscall.ECONNRESET) {
 					// a connection that was reset did not end, it broke
 					return dst[:offset], err
 				}
@@ -419,6 +419,10 @@ func trySkipTrailer(r network.Reader, n int) error {
 			return errs.New(errs.ErrTimeout, errs.ErrorTypePublic, "read response header")
 		}
 
+		if errors.Is(err, syscall.ECONNRESET) {
+			// (a reset is not the peer ending the message early, the connection broke)
+			return errs.NewPublicf("error when reading request trailer: %w", err)
+		}
 		if n == 1 || err == io.EOF {
 			return io.EOF
 		}
@@ -487,6 +491,10 @@ func tryReadTrailer(t *protocol.Trailer, r network.Reader, n int) error {
 			return errs.New(errs.ErrTimeout, errs.ErrorTypePublic, "read response header")
 		}
 
+		if errors.Is(err, syscall.ECONNRESET) {
+			// (a reset is not the peer ending the message early, the connection broke)
+			return errs.NewPublicf("error when reading request trailer: %w", err)
+		}
 		if n == 1 || err == io.EOF {
 			return io.EOF
 		}
